@@ -5,6 +5,7 @@ import (
 	"fmt"
 	"os"
 	"reflect"
+	"runtime/debug"
 	"strconv"
 	"strings"
 	"time"
@@ -335,9 +336,50 @@ type shBlankUnclosed struct {
 	C string `( @Int`
 }
 
+// several levels of indirection between a field and the struct it reaches; embedded POINTERS to structs
+type shTreeIndirect struct {
+	Name string            `@Ident`
+	Kids *[]shTreeIndirect `( "(" @@* ")" )?`
+}
+type shLeaf struct {
+	V string `@Ident`
+}
+type shPtr4 struct {
+	L ****shLeaf `@@`
+}
+type shSliceSlice struct {
+	L [][]shLeaf `@@*`
+}
+type shPlain struct{ X string }
+type shPtrPtrScalar struct {
+	P **shPlain `@Ident`
+}
+type ShEmbValue struct {
+	*ShEmbGroup
+	V string `@Ident`
+}
+type ShEmbGroup struct {
+	*ShEmbValue
+	G string `"(" @Ident ")"`
+}
+type ShInnerOK struct {
+	A string `@Ident`
+}
+type shEmbPtrBadTag struct {
+	*ShInnerOK `@Bogus`
+	B          string `@Int`
+}
+
 // shape-run: Build on struct shapes; prints "name\toutcome".
 func shapeRun(args []string) error {
+	debug.SetMaxStack(256 << 20)
 	run := func(name string, f func() error) {
+		for _, sk := range strings.Split(os.Getenv("VH_SKIP"), ",") {
+			if sk == name {
+				return // (a shape that killed an earlier run of this command: reported by the caller)
+			}
+		}
+		fmt.Printf("BEGIN\t%s\n", name)
 		fmt.Printf("%s\t%s\n", name, guardedBuild(f))
 		if os.Getenv("VERIF_SHAPE_DEBUG") != "" {
 			fmt.Fprintln(os.Stderr, name, f())
@@ -430,6 +472,12 @@ func shapeRun(args []string) error {
 	})
 	run("blank-tag-then-unknown-token", func() error { _, err := participle.Build[shBlankBad](); return err })
 	run("blank-tag-then-unclosed-group", func() error { _, err := participle.Build[shBlankUnclosed](); return err })
+	run("ptr-to-slice-recursive", func() error { _, err := participle.Build[shTreeIndirect](); return err })
+	run("ptr4-struct", func() error { _, err := participle.Build[shPtr4](); return err })
+	run("slice-of-slice-struct", func() error { _, err := participle.Build[shSliceSlice](); return err })
+	run("ptrptr-struct-scalar", func() error { _, err := participle.Build[shPtrPtrScalar](); return err })
+	run("embedded-pointer-cycle", func() error { _, err := participle.Build[ShEmbValue](); return err })
+	run("embedded-pointer-bad-tag", func() error { _, err := participle.Build[shEmbPtrBadTag](); return err })
 	run("complex", func() error { _, err := participle.Build[shComplex](); return err })
 	run("uintptr", func() error { _, err := participle.Build[shUintptr](); return err })
 	return nil
